@@ -68,12 +68,14 @@ CDPLAYER = [
     ['StatePause', 'EventAfter10Minutes', 'StateStop', 'OnStop', 'None'],
 ]
 
-_SYL = ["Al", "Be", "Ca", "Do", "En", "Fi", "Go", "Hu", "Ix", "Jo", "Ka", "Lu", "Mo", "Ne", "Op", "Pa", "Qu", "Ro", "Si", "Tu"]
+# "None" as a syllable: names such as OnSelectNone / GuardIsNone3 / StateNoneCa are ordinary identifiers (only the whole
+# cell ''/'none'/'None' means "absent")
+_SYL = ["Al", "Be", "Ca", "Do", "En", "Fi", "Go", "Hu", "Ix", "Jo", "Ka", "Lu", "Mo", "Ne", "Op", "Pa", "Qu", "Ro", "Si", "Tu", "None"]
 
 
 def ident(rng, prefix):
     """UpperCamelCase identifier without '_' (so tag names stay injective)."""
-    return prefix + "".join(rng.choice(_SYL) for _ in range(rng.randint(1, 2))) + str(rng.randint(0, 9))
+    return prefix + "".join(rng.choice(_SYL) for _ in range(rng.randint(1, 2))) + rng.choice(["", str(rng.randint(0, 9)), str(rng.randint(0, 9))])
 
 
 def random_table(rng, nstates=None, nevents=None, nrows=None, allow_guard_mix=True):
